@@ -964,7 +964,12 @@ class SyncObj(object):
                 if not self.__serializer.setTransmissionData(serialized):
                     # Partial snapshot: nothing of the local log was verified against the leader yet
                     return
-                self.__loadDumpFile(clearJournal=True)
+                if not self.__loadDumpFile(clearJournal=True):
+                    # Stale snapshot (the leader acted on an outdated reply): everything it covers is committed here
+                    # already. State and log are kept, the stored snapshot is renewed and the leader is told where to go on.
+                    self.__forceLogCompaction = True
+                    self.__sendNextNodeIdx(node, nextNodeIdx=self.__raftCommitIndex + 1, success=True)
+                    return
                 self.__sendNextNodeIdx(node, success=True)
             else:
                 return
@@ -1409,6 +1414,8 @@ class SyncObj(object):
     def __loadDumpFile(self, clearJournal):
         try:
             data = self.__serializer.deserialize()
+            if clearJournal and data[1][1] <= self.__raftCommitIndex:
+                return False
             if data[0] is not None:
                 if self.__consumers:
                     selfData = data[0][0]
@@ -1438,6 +1445,7 @@ class SyncObj(object):
             self.__onSetCodeVersion(self.__enabledCodeVersion)
         except:
             logger.exception('failed to load full dump')
+        return True
 
     def __updateClusterConfiguration(self, newNodes):
         # newNodes: list of Node or node ID
